@@ -344,6 +344,27 @@ func guardedBySupports(e *Env, fn *ssa.Function, p *ssa.Parameter, what string) 
 				}
 			}
 		}
+		// Supports is `return pred(x, …)` with pred a predicate of the package that asserts the string itself
+		if !est && len(sup.Blocks) == 1 {
+			if ret, ok := sup.Blocks[0].Instrs[len(sup.Blocks[0].Instrs)-1].(*ssa.Return); ok && len(ret.Results) == 1 {
+				if c, ok := ret.Results[0].(*ssa.Call); ok {
+					if h := c.Call.StaticCallee(); h != nil && h.Pkg == sup.Pkg && len(h.Blocks) > 0 {
+						for i, a := range c.Call.Args {
+							if len(sup.Params) == 0 || a != ssa.Value(sup.Params[len(sup.Params)-1]) || i >= len(h.Params) {
+								continue
+							}
+							for _, hb := range h.Blocks {
+								for _, ins := range hb.Instrs {
+									if ta, ok := ins.(*ssa.TypeAssert); ok && ta.CommaOk && isStringType(ta.AssertedType) && ta.X == ssa.Value(h.Params[i]) {
+										est = supportsTrueOnlyAfter(h, ta)
+									}
+								}
+							}
+						}
+					}
+				}
+			}
+		}
 	}
 	if !est {
 		return "", false
@@ -369,17 +390,7 @@ func guardedBySupports(e *Env, fn *ssa.Function, p *ssa.Parameter, what string) 
 				continue
 			}
 			callers++
-			ok := false
-			for _, sc := range findInvokes(f, "Supports", false) {
-				if sc.Common().Value == c.Common().Value && sc.Common().Args[0] == c.Common().Args[0] {
-					for _, ref := range *sc.Value().Referrers() {
-						if iff, isIf := ref.(*ssa.If); isIf && edgeDominates(iff.Block(), true, c) {
-							ok = true
-						}
-					}
-				}
-			}
-			if !ok {
+			if !handledAfterSupports(f, c) {
 				return "", false
 			}
 		}
@@ -568,6 +579,11 @@ func dischargeIndex(e *Env, s panicSite) (string, bool) {
 			// match[i] with i ranging over SubexpNames(): (f)
 		}
 	}
+	// (d') counted loop: i starts at a non-negative constant, is only ever incremented, and the access lies
+	// behind the true edge of `i < len(x)` (x the indexed value, or a local it was copied to/from)
+	if why, ok := countedLoopIndex(s.fn, x, idx, s.ins); ok {
+		return why, true
+	}
 	// (e) constant index dominated by a len comparison that implies it
 	if k, ok := constInt(idx); ok {
 		if lenGuard(s.fn, x, k, s.ins) {
@@ -615,6 +631,61 @@ func dischargeIndex(e *Env, s panicSite) (string, bool) {
 		}
 	}
 	return "index that is not shown to be in range", false
+}
+
+// countedLoopIndex: idx is a phi of a non-negative constant and idx+c (c > 0), and ins is dominated by the
+// true edge of `idx < len(x')` where x' is the same slice/string as x (same value, same load, or — for a
+// slice local captured once — the same cell).
+func countedLoopIndex(fn *ssa.Function, x, idx ssa.Value, ins ssa.Instruction) (string, bool) {
+	phi, ok := idx.(*ssa.Phi)
+	if !ok || len(phi.Edges) != 2 {
+		return "", false
+	}
+	init, step := false, false
+	for _, ed := range phi.Edges {
+		if k, isK := constInt(ed); isK && k >= 0 {
+			init = true
+			continue
+		}
+		if bo, isB := ed.(*ssa.BinOp); isB && bo.Op == token.ADD && bo.X == ssa.Value(phi) {
+			if k, isK := constInt(bo.Y); isK && k > 0 {
+				step = true
+			}
+		}
+	}
+	if !init || !step {
+		return "", false
+	}
+	sameSeq := func(a, b ssa.Value) bool {
+		if a == b || sameLoad(a, b) {
+			return true
+		}
+		// both are loads of the same local cell
+		la, ok1 := a.(*ssa.UnOp)
+		lb, ok2 := b.(*ssa.UnOp)
+		return ok1 && ok2 && la.X == lb.X
+	}
+	for _, b := range fn.Blocks {
+		iff, isIf := b.Instrs[len(b.Instrs)-1].(*ssa.If)
+		if !isIf {
+			continue
+		}
+		bo, isB := iff.Cond.(*ssa.BinOp)
+		if !isB || bo.Op != token.LSS || bo.X != ssa.Value(phi) {
+			continue
+		}
+		lc, isC := bo.Y.(*ssa.Call)
+		if !isC {
+			continue
+		}
+		if bi, isBi := lc.Call.Value.(*ssa.Builtin); !isBi || bi.Name() != "len" || !(sameSeq(lc.Call.Args[0], x) || equalLength(x, lc.Call.Args[0])) {
+			continue
+		}
+		if edgeDominates(b, true, ins) {
+			return "(d') counted loop index behind i < len(x)", true
+		}
+	}
+	return "", false
 }
 
 func passedToSort(fn *ssa.Function) bool {
@@ -755,7 +826,15 @@ func edgeImpliesLen(cond ssa.Value, edge bool, x ssa.Value, k int64) bool {
 	if !ok {
 		return false
 	}
-	lc, ok := bo.X.(*ssa.Call)
+	// the left operand is len(x) or len(x) - d (e.g. `last := len(x) - 1; if last >= 1`)
+	left := bo.X
+	shift := int64(0)
+	if sub, isSub := left.(*ssa.BinOp); isSub && sub.Op == token.SUB {
+		if d, isK := constInt(sub.Y); isK {
+			left, shift = sub.X, d
+		}
+	}
+	lc, ok := left.(*ssa.Call)
 	if !ok {
 		return false
 	}
@@ -767,6 +846,7 @@ func edgeImpliesLen(cond ssa.Value, edge bool, x ssa.Value, k int64) bool {
 	if !ok {
 		return false
 	}
+	c += shift
 	// normalise to "len OP c" true on `edge`
 	op := bo.Op
 	if !edge {
